@@ -127,7 +127,7 @@ func (e *Engine) callFunc(fr *Frame, st *State, ins ssa.Instruction, fn *ssa.Fun
 		return v
 	}
 	c := e.contractFor(fn)
-	if c != nil && c.Stale != "" {
+	if c != nil && c.Stale != "" && !c.StaleLoopsOnly {
 		unsupported("callee %s has a stale contract", fnKey(fn))
 	}
 	if fr.contract != nil && fr.caller == nil && !fr.ghost && len(fr.contract.CallsiteRequires) > 0 {
